@@ -1,4 +1,4 @@
-(* runs the extracted rculfhash model: driver PROG SCHED ; ops A<i> U<i> L<i> X as in harness/scen_lfht.c
+(* runs the extracted rculfhash model: driver PROG SCHED ; ops A<i> U<i> L<i> X P<i> as in harness/scen_lfht.c
    node ids: 1 = bucket 0, 2 = bucket 1, 3+i = entry i.  Reverse hashes are given by order-preserving ranks. *)
 open Lfht_model
 let rec nat_of_int i = if i <= 0 then O else S (nat_of_int (i-1))
@@ -25,6 +25,7 @@ let parse_prog s =
      | 'A' -> let e = Char.code s.[!i+1] - 48 in ops := OAdd (n_of_int (3+e), n_of_int eh.(e), false) :: !ops; incr i
      | 'U' -> let e = Char.code s.[!i+1] - 48 in ops := OAdd (n_of_int (3+e), n_of_int eh.(e), true) :: !ops; incr i
      | 'L' -> let e = Char.code s.[!i+1] - 48 in ops := OLookup (n_of_int eh.(e), n_of_int (rank_of_hash eh.(e)), n_of_int ek.(e)) :: !ops; incr i
+     | 'P' -> let e = Char.code s.[!i+1] - 48 in ops := OReplaceFound (n_of_int (3+e)) :: !ops; incr i
      | 'X' -> ops := ODelFound :: !ops
      | _ -> ());
     incr i
@@ -37,7 +38,7 @@ let () =
     if k >= 48 && k < 58 then cs := Step (nat_of_int (k-48)) :: !cs
     else if k >= 97 && k < 107 then cs := Flush (nat_of_int (k-97)) :: !cs) Sys.argv.(2);
   let evs = run_h cfg m0 threads (List.rev !cs) in
-  let opn o = match int_of_nat o with 0 -> "add" | 1 -> "lookup" | _ -> "del" in
+  let opn o = match int_of_nat o with 0 -> "add" | 1 -> "lookup" | 2 -> "del" | _ -> "replace" in
   let i = int_of_n in
   List.iter (function
     | EvFlush (t,l,_) -> Printf.printf "%d flush %s\n" (int_of_nat t) (sloc l)
